@@ -63,6 +63,13 @@ def variants(quick, rng):
         merged = [a for part in parts[:npart] for a in part]
         for args in (["--ff=AMBER"], ["--clean"], ["--ff=PARSE", "--noopt"]):
             jobs.append({"what": f"{npart} peptides under one chain id", "text": gen.pdb_text([merged]), "args": args})
+    # alternative spellings that the topology itself declares (terminal oxygens OT1/OT2, O'/O''; HN, 1HB, ...)
+    base5 = ["ALA", "SER", "LYS", "GLY", "ASP"]
+    for style in (0, 1):
+        jobs.append({"what": f"terminal oxygens under alternative spelling {style}", "args": [f"--ff={ffs[style]}"],
+                     "text": gen.pdb_text([gen.respell(gen.peptide(base5), style, only=("O", "OXT"))])})
+        jobs.append({"what": f"hydrogens under alternative spelling {style}", "args": [f"--ff={ffs[2 + style]}"],
+                     "text": gen.pdb_text([gen.respell(gen.peptide(["SER", "LYS", "HIS", "ASP", "TYR", "LEU"], hydrogens=True), style)])})
     # backbone gap inside one chain (no TER, numbering continues)
     full = gen.peptide(["ALA", "SER", "LYS", "GLY", "TRP", "ASP", "VAL", "LEU"])
     gap = [a for a in full if a["res_index"] not in (3, 4)]
